@@ -948,8 +948,70 @@ def _inl(rule):
     return run
 
 
+def rule_namespace_container(model):
+    r = RuleResult('C05.R8', 'the guards accept reads from the namespace '
+                   'object the engine itself builds (error_type / '
+                   'error_value in handlers, _.namespace()): the type '
+                   'registered as an allowed container is the type of the '
+                   'DictInstance a TemplateDict call returns inside its '
+                   '1-tuple, not of the tuple')
+    m = model.modules.get('security')
+    if m is None:
+        raise AnalysisError('C05.R8: module security not found')
+    call = model.func('_DocumentTemplate', 'TemplateDict.__call__')
+    tuple_ret = [x for x in own_nodes(call.node)
+                 if isinstance(x, ast.Return) and isinstance(
+                     x.value, ast.Tuple) and len(x.value.elts) == 1]
+    if not tuple_ret:
+        raise AnalysisError('C05.R8: TemplateDict.__call__ does not return '
+                            'a 1-tuple any more (anchor changed)')
+    binds = {}
+    for n in ast.walk(m.tree):
+        if isinstance(n, ast.Assign) and len(n.targets) == 1 and \
+                isinstance(n.targets[0], ast.Name):
+            binds.setdefault(n.targets[0].id, []).append(n.value)
+    nreg = 0
+    for n in ast.walk(m.tree):
+        if not (isinstance(n, ast.Assign) and isinstance(
+                n.targets[0], ast.Subscript) and
+                norm(n.targets[0].value) == 'ContainerAssertions'):
+            continue
+        key = n.targets[0].slice
+        if not (isinstance(key, ast.Call) and norm(key.func) == 'type'
+                and key.args and isinstance(key.args[0], ast.Name)):
+            continue
+        nreg += 1
+        defs = binds.get(key.args[0].id, [])
+        ok = bool(defs)
+        for d in defs:
+            # templateDict(...)[0]
+            if not (isinstance(d, ast.Subscript) and isinstance(
+                    d.slice, ast.Constant) and d.slice.value == 0 and
+                    isinstance(d.value, ast.Call)):
+                ok = False
+                continue
+            f = d.value.func
+            fdefs = binds.get(f.id, []) if isinstance(f, ast.Name) else []
+            if not (fdefs and all(
+                    isinstance(v, ast.Call) and
+                    norm(v.func).endswith('TemplateDict') for v in fdefs)):
+                ok = False
+        r.instance('security:<module>', n, 'type of the DictInstance'
+                   if ok else 'TYPE OF SOMETHING ELSE')
+        if not ok:
+            r.finding('security:<module>', n, 'the type registered as an '
+                      'allowed container is not that of the first element '
+                      'of a TemplateDict call: under the security guards '
+                      'error_type / error_value (and _.namespace() values) '
+                      'cannot be read inside a handler', node=n, ctx=m)
+    if nreg < 1:
+        raise AnalysisError('C05.R8: registration in ContainerAssertions '
+                            'not found')
+    return r
+
+
 INLINED_VIEW = True
-RULES_PLAIN = [rule_attr_reads, rule_item_reads, rule_underscore, rule_restricted, rule_propagation, rule_guard_owner, rule_index_removal]
+RULES_PLAIN = [rule_namespace_container, rule_attr_reads, rule_item_reads, rule_underscore, rule_restricted, rule_propagation, rule_guard_owner, rule_index_removal]
 RULES = [_inl(r_) for r_ in RULES_PLAIN] if INLINED_VIEW else RULES_PLAIN
 EXPLANATION = (
     'Classification of every getattr-family call site with a dynamic name '
